@@ -51,6 +51,17 @@ pub struct Knobs {
     /// server default max topic size (0 = unlimited)
     pub default_max_topic_size: u64,
     pub max_tokens_per_user: u32,
+    /// capacity of the deduplicator (0 = unbounded, which `Partition::create` maps to no limit)
+    #[serde(default = "default_dedup_max_entries")]
+    pub dedup_max_entries: u64,
+    /// time-to-live of remembered ids in micros (0 = none); moka reads its own clock, so a non-zero value
+    /// never elapses inside a run - it only selects the constructor path
+    #[serde(default)]
+    pub dedup_expiry_micros: u64,
+}
+
+fn default_dedup_max_entries() -> u64 {
+    1_000_000
 }
 
 impl Default for Knobs {
@@ -73,6 +84,8 @@ impl Default for Knobs {
             default_expiry_micros: 0,
             default_max_topic_size: 0,
             max_tokens_per_user: 100,
+            dedup_max_entries: 1_000_000,
+            dedup_expiry_micros: 0,
         }
     }
 }
@@ -92,6 +105,8 @@ impl Knobs {
             ..Default::default()
         };
         k.validate_checksum = rng.chance(0.2);
+        k.dedup_max_entries = *rng.pick(&[0, 1_000_000, 1_000_000]);
+        k.dedup_expiry_micros = *rng.pick(&[0, 0, 86_400_000_000]);
         k
     }
 
@@ -124,8 +139,8 @@ impl Knobs {
         };
         config.topic.delete_oldest_segments = self.delete_oldest_segments;
         config.message_deduplication.enabled = self.dedup;
-        config.message_deduplication.max_entries = 1_000_000;
-        config.message_deduplication.expiry = IggyDuration::from(0);
+        config.message_deduplication.max_entries = self.dedup_max_entries;
+        config.message_deduplication.expiry = IggyDuration::from(self.dedup_expiry_micros);
         config.encryption.enabled = self.encryption;
         config.encryption.key = self.encryption_key.clone();
         config.recovery.recreate_missing_state = self.recreate_missing_state;
